@@ -8,13 +8,14 @@ executed on a real connection.  Oracle: invariants over the sql_runner's call lo
 of a multi-predicate run with the single-predicate runs."""
 import copy
 import json
+import threading
 
 from lv import core, drive, plans, planprog
 from lv.props import common
 
 ID = 'C14'
-BUDGET = {'quick': 6400, 'thorough': 160000}     # cases, 1/12 of them domain B
-B_SHARE = 12
+BUDGET = {'quick': 4800, 'thorough': 160000}     # cases, 1/20 of them domain B
+B_SHARE = 20
 WALL = {'quick': 900, 'thorough': 5400}
 RULE = ('A: random compile-shaped workflow plans (<= 10 actions in a random DAG with '
         'random names, 0-2 data nodes, 0-2 iteration groups that are flat [upper half + '
@@ -28,7 +29,7 @@ RULE = ('A: random compile-shaped workflow plans (<= 10 actions in a random DAG 
         'of the group. B: generated SQLite programs (1-2 fact tables, 3-7 derived '
         'predicates: filters, joins, unions, swaps, @Ground on ~65%, up to 2 deep '
         'recursions @Recursive(P, 21..44), self or mutual, which compile to @Iteration '
-        'groups of 2 or 4 statements with 8-20 repetitions), 1-4 requested predicates; '
+        'groups of 2 or 4 statements with 9-21 repetitions), 1-4 requested predicates; '
         'compiled by the real compiler, executed on SQLite. Non-trivial = >= 2 grounded '
         'intermediate tables. Distinct by hash of the plan / (program, request).')
 ASSUMPTIONS = [
@@ -54,6 +55,26 @@ def run_a(plan):
     return fails, info
 
 
+def in_fresh_thread(fn, *args):
+    """Run fn on a new thread and wait for it.  Only a matter of speed: under
+    Hypothesis the interpreter's frame stack sits where the compiler's recursive
+    descent keeps crossing a stack-chunk boundary (CPython 3.12 maps and unmaps a chunk
+    on every crossing, ~800 munmap calls per compile); a new thread has its own stack."""
+    box = {}
+
+    def run():
+        try:
+            box['value'] = fn(*args)
+        except BaseException as e:      # re-raised in the caller: a harness error
+            box['error'] = e
+    t = threading.Thread(target=run)
+    t.start()
+    t.join()
+    if 'error' in box:
+        raise box['error']
+    return box['value']
+
+
 def dedupe(fails):
     seen, out = set(), []
     for b, d in fails:
@@ -71,6 +92,13 @@ def shard(ctx, col):
     drive.enable_library_cache()
     n_b = ctx.budget // B_SHARE
     n_a = ctx.budget - n_b
+    shown = {'A': 0, 'B': 0}        # two written-out samples per domain and shard
+
+    def sample(dom, nt, value):
+        if nt and shown[dom] < 2:
+            shown[dom] += 1
+            return value
+        return None
 
     def one_a(rng):
         plan = plans.gen_plan(rng)
@@ -81,13 +109,14 @@ def shard(ctx, col):
             labels.append('A:nontrivial')
         col.case(('A', json.dumps(plan, sort_keys=True)), nt and not fails,
                  labels + (['failed'] if fails else []),
-                 sample={'domain': 'A', 'plan': plan, 'statement_calls': info['calls']})
+                 sample=sample('A', nt and not fails, {
+                     'domain': 'A', 'plan': plan, 'statement_calls': info['calls']}))
         for b, d in dedupe(fails):
             col.fail('A:' + b, {'dom': 'A', 'plan': plan}, d + '\n' + describe_plan(plan))
 
     def one_b(rng):
         case = planprog.gen_program(rng)
-        o = planprog.check_program(case['text'], case['request'])
+        o = in_fresh_thread(planprog.check_program, case['text'], case['request'])
         if o.inconclusive:
             col.inconc('B:' + o.inconclusive)
             return
@@ -97,9 +126,9 @@ def shard(ctx, col):
             labels.append('B:nontrivial')
         col.case(('B', case['text'], case['request']), nt and not o.fails,
                  labels + (['failed'] if o.fails else []),
-                 sample={'domain': 'B', 'program': case['text'],
-                         'request': case['request'],
-                         'statement_calls': o.info['calls']})
+                 sample=sample('B', nt and not o.fails, {
+                     'domain': 'B', 'program': case['text'], 'request': case['request'],
+                     'statement_calls': o.info['calls']}))
         for b, d in dedupe(o.fails):
             col.fail('B:' + b, {'dom': 'B', 'text': case['text'],
                                 'request': case['request']},
@@ -208,5 +237,5 @@ def minimise(case, bucket):
             req = [q for q in request if q != p]
             if _fails(mk(rest, req), bucket):
                 request = req
-    rest = core.ddmin(rest, lambda ls: _fails(mk(ls, request), bucket), max_tests=60)
+    rest = core.ddmin(rest, lambda ls: _fails(mk(ls, request), bucket), max_tests=40)
     return mk(rest, request)
